@@ -257,6 +257,145 @@ theorem mismatched_keys_error {geo : Geo} (hw : geo.WF) (km : Nat → Nat → Op
   unfold send
   simp only [Tree.init, groupInit, h]
 
+/-! ## Other contexts: elements of a `GainSTM`, other transition modes -/
+
+/-- segment and transition a datagram is sent with: bare = `S0` / `Immediate`, `WithSegment` = its
+own two fields -/
+def wrapTarget : Option (Segment × Option Transition) → Segment × Option Transition
+  | none => (.S0, some .immediate)
+  | some (s, tm) => (s, tm)
+
+private theorem stmInits_sound {ρ : Nat → Nat → Nat → Drive} {geo : Geo} (hw : geo.WF) (par : Bool) :
+    ∀ (ts : List Tree) (σ : St), (∀ t ∈ ts, t.WF ρ geo false) → Inv ρ geo (fun _ => False) σ →
+      ∃ gens σ', stmInits geo none par (ts.map Tree.init) σ = (.ok gens, σ') ∧
+        Inv ρ geo (fun _ => False) σ' ∧
+        mapE (fun gen => drivesOf gen geo.devices) gens = .ok (ts.map fun t => denDrives t geo)
+  | [], σ, _, hI => ⟨[], σ, rfl, hI, rfl⟩
+  | t :: rest, σ, hT, hI => by
+    obtain ⟨gen, σ1, h1, h2, _, h4⟩ :=
+      Tree.sound hw t false (fun _ => False) (fun _ _ h => h) (hT t (by simp)) none par σ hI
+    have hg : GoodGen geo gen (fun _ _ => True) t.den := by
+      intro d hd
+      obtain ⟨c, hc, hx⟩ := h4 d hd
+      exact ⟨c, hc, fun t ht _ => hx t ht (Or.inr rfl)⟩
+    obtain ⟨gens, σ2, h5, h6, h7⟩ :=
+      stmInits_sound hw par rest σ1 (fun x hx => hT x (by simp [hx])) h2
+    refine ⟨gen :: gens, σ2, ?_, h6, ?_⟩
+    · simp only [List.map_cons, stmInits, h1, h5]
+    · simp only [mapE, drivesOf_good hg, h7, List.map_cons, denDrives]
+
+/-- **Wrappers are transparent as the elements of a `GainSTM`**: a sequence (of a valid length) of
+well-formed trees — any nesting, any sharing of caches between the elements, any enable mask — sent
+from a good state succeeds, pattern `i` is exactly the denotation of tree `i` on every enabled
+device, in the order of the gains, to the segment / with the transition the datagram names, and the
+state is good again. -/
+theorem stm_transparent {ρ : Nat → Nat → Nat → Drive} {geo : Geo} (hw : geo.WF) (ts : List Tree)
+    (w : Option (Segment × Option Transition)) (hn : 2 ≤ ts.length ∧ ts.length ≤ 1024)
+    (hT : ∀ t ∈ ts, t.WF ρ geo false) (par : Bool) (σ : St) (hI : Inv ρ geo (fun _ => False) σ) :
+    ∃ σ', sendStm ts w geo par σ =
+        (.ok { segment := (wrapTarget w).1, transition := (wrapTarget w).2,
+               patterns := ts.map fun t => denDrives t geo }, σ') ∧
+      Inv ρ geo (fun _ => False) σ' := by
+  obtain ⟨gens, σ', h1, h2, h3⟩ := stmInits_sound hw par ts σ hT hI
+  refine ⟨σ', ?_, h2⟩
+  have hlen : ¬ (ts.length < 2 ∨ ts.length > 1024) := by omega
+  unfold sendStm
+  simp only [hlen, if_false, h1, h3]
+  cases w with
+  | none => rfl
+  | some p => rfl
+
+/-- **Wrappers are transparent as the members of a tuple datagram**: two well-formed trees (any
+nesting, caches shared between them or not, any mask) sent as `(WithSegment{t1,S0,a},
+WithSegment{t2,S1,b})` put the denotation of `t1` into `S0` and that of `t2` into `S1`. -/
+theorem pair_transparent {ρ : Nat → Nat → Nat → Drive} {geo : Geo} (hw : geo.WF) (t1 t2 : Tree)
+    (tm1 tm2 : Option Transition) (h1 : t1.WF ρ geo false) (h2 : t2.WF ρ geo false) (par : Bool) (σ : St)
+    (hI : Inv ρ geo (fun _ => False) σ) :
+    ∃ σ', sendPair t1 t2 tm1 tm2 geo par σ =
+        (.ok ({ segment := .S0, transition := tm1, drives := denDrives t1 geo },
+              { segment := .S1, transition := tm2, drives := denDrives t2 geo }), σ') ∧
+      Inv ρ geo (fun _ => False) σ' := by
+  obtain ⟨g1, σ1, e1, i1, _, x1⟩ :=
+    Tree.sound hw t1 false (fun _ => False) (fun _ _ h => h) h1 none par σ hI
+  obtain ⟨g2, σ2, e2, i2, _, x2⟩ :=
+    Tree.sound hw t2 false (fun _ => False) (fun _ _ h => h) h2 none par σ1 i1
+  have hg1 : GoodGen geo g1 (fun _ _ => True) t1.den := by
+    intro d hd
+    obtain ⟨c, hc, hx⟩ := x1 d hd
+    exact ⟨c, hc, fun t ht _ => hx t ht (Or.inr rfl)⟩
+  have hg2 : GoodGen geo g2 (fun _ _ => True) t2.den := by
+    intro d hd
+    obtain ⟨c, hc, hx⟩ := x2 d hd
+    exact ⟨c, hc, fun t ht _ => hx t ht (Or.inr rfl)⟩
+  refine ⟨σ2, ?_, i2⟩
+  unfold sendPair
+  simp only [e1, e2, drivesOf_good hg1, drivesOf_good hg2, denDrives]
+
+/-- **A `GainSTM` of an invalid length is refused before any gain is touched** (no cache changes). -/
+theorem stm_size_refused (ts : List Tree) (w : Option (Segment × Option Transition)) (geo : Geo)
+    (par : Bool) (σ : St) (hn : ts.length < 2 ∨ ts.length > 1024) :
+    (sendStm ts w geo par σ).1 = .error (.stmSize ts.length) ∧
+      (sendStm ts w geo par σ).2.caches = σ.caches := by
+  unfold sendStm
+  simp only [hn, if_true, and_self]
+
+/-- **`WithSegment` never swallows a transition mode**: with a mode other than `Immediate` and at
+least one enabled device the send is never `Ok`, for every tree, state and mask … -/
+theorem mode_not_swallowed (T : Tree) (s : Segment) (mode : TMode) (geo : Geo) (par : Bool) (σ : St)
+    (hm : mode ≠ .immediate) (hd : geo.devices ≠ []) :
+    ∀ r, (sendMode T s mode geo par σ).1 ≠ .ok r := by
+  intro r
+  unfold sendMode
+  simp only [hm, if_false]
+  cases h : T.init geo none par σ with
+  | mk res σ' =>
+    cases res with
+    | error e => simp
+    | ok gen =>
+      simp only []
+      cases hg : genAll gen geo.devices with
+      | error p => simp
+      | ok cs =>
+        cases cs with
+        | cons c rest => simp
+        | nil =>
+          exfalso
+          unfold genAll at hg
+          cases hdv : geo.devices with
+          | nil => exact hd hdv
+          | cons d ds =>
+            rw [hdv] at hg
+            simp only [mapE] at hg
+            split at hg
+            · cases hg
+            · split at hg <;> cases hg
+
+/-- … and **the caches are left exactly as by a valid send of the same tree** (the gain was
+initialised before the mode was looked at), whatever the mode. -/
+theorem mode_same_state (T : Tree) (s : Segment) (mode : TMode) (geo : Geo) (par : Bool) (σ : St) :
+    (sendMode T s mode geo par σ).2 = (send { tree := T, wrap := some (s, none) } geo par σ).2 := by
+  unfold sendMode send
+  by_cases hm : mode = .immediate
+  · simp only [hm, if_true]
+    cases h : T.init geo none par σ with
+    | mk res σ' =>
+      cases res with
+      | error e => rfl
+      | ok gen =>
+        simp only []
+        cases drivesOf gen geo.devices <;> rfl
+  · simp only [hm, if_false]
+    cases h : T.init geo none par σ with
+    | mk res σ' =>
+      cases res with
+      | error e => rfl
+      | ok gen =>
+        simp only []
+        cases drivesOf gen geo.devices <;>
+          (cases genAll gen geo.devices with
+           | error p => rfl
+           | ok cs => cases cs <;> rfl)
+
 /-! ## The leaves used by the correspondence stream meet the hypotheses -/
 
 /-- `Custom` closures: total (ignore filter and enable flags) -/
@@ -330,6 +469,25 @@ example :
     (match (send { tree := exTree } exGeo false {}).1 with
       | .ok s => s.drives
       | .error _ => []) = [(1, [drv 1 1 0, drv 1 1 1, drv 1 1 2])] := by decide +kernel
+
+/-- the witness twice as the elements of a `GainSTM` (the cache of the first element is the cache of
+the second one): both patterns reach device 1 only, with the drives of `drv 1` -/
+example :
+    (match (sendStm [exTree, exTree] none exGeo false {}).1 with
+      | .ok s => s.patterns
+      | .error _ => []) =
+      [[(1, [drv 1 1 0, drv 1 1 1, drv 1 1 2])], [(1, [drv 1 1 0, drv 1 1 1, drv 1 1 2])]] := by
+  decide +kernel
+
+/-- the witness inside `WithSegment { S1, Some(Ext) }`: refused (device 1 is enabled), and the cache
+has been filled all the same -/
+example :
+    (match sendMode exTree .S1 .ext exGeo false {} with
+      | (.error .invalidTransitionMode, σ') => ((σ'.caches 1).taken, (σ'.caches 1).store.map (·.1))
+      | _ => (false, [])) = (true, [1]) := by
+  decide +kernel
+
+example : exGeo.devices ≠ [] := by decide
 
 /-- a gain under a key no enabled transducer maps to: the hypothesis of `mismatched_keys_error` -/
 example : ¬ ∀ k, k ∈ (GMap.cons 11 (.leaf (customLeaf 2)) .nil).keys ↔
